@@ -599,6 +599,13 @@ def run_c15(pid, tier, rep, deadline_s):
                     'what_states_and_transitions_are': 'states = histories + schedules executed; transitions = calls checked in histories + scheduling points passed in schedules'}
     rep.assumptions = ['scheduling points are the seams through which the library calls back into user code; the library contains no synchronisation operations of its own', 'sequential consistency (no atomics in the library)', '2 threads in the scheduled exploration, 3 in the TSan pass']
 
+def run_c08(pid, tier, rep, deadline_s):
+    q = tier == 'quick'
+    run_gram(pid, tier, rep, deadline_s); cov = dict(rep.coverage)
+    totals, samples, bounds, extra = run_progs(pid, rep, [dict(name='c08c', src='c08_compiled.cpp', args=[5 if q else 7], compilers=['g++'] if q else ['g++', 'clang++'], label='4 compiled grammars with error rules (README; two nesting levels; typed no_type separator; custom lexer) x inputs<=%d' % (5 if q else 7))], deadline_s)
+    rep.coverage = merge_cov(cov, {'states': totals['cases'], 'transitions': totals['checks'], 'traces_validated_against_impl': totals['cases'], 'samples': samples, 'evaluations': totals['cases'], 'distinct_nontrivial': extra.get('recovered', 0) + extra.get('recovery_failed', 0), 'bounds': bounds,
+                                   'exhaustive': all(b['completed'] for b in bounds), 'counters': extra, 'rule': 'Compiled part: four ordinary DSL grammars with error rules on every input up to the bound over their terminals, space and a foreign byte; result, value tree and every message (with position) must equal the documented driver + recovery on a reference LR(1) table.'})
+
 # ----------------------------------------------------------------------------- dispatch
 QUICK_DEADLINE, THOROUGH_DEADLINE = 240, 1500
 
@@ -624,7 +631,8 @@ def main(argv):
             print('unknown replay artefact'); return 2
         rep = Report(pid, tier)
         deadline = QUICK_DEADLINE if tier == 'quick' else THOROUGH_DEADLINE
-        if pid in GRAM_PROPS: run_gram(pid, tier, rep, deadline)
+        if pid == 'C08': run_c08(pid, tier, rep, deadline)
+        elif pid in GRAM_PROPS: run_gram(pid, tier, rep, deadline)
         elif pid == 'C17': run_c17(pid, tier, rep, deadline)
         elif pid in RX_PROPS: run_rx(pid, tier, rep, deadline)
         elif pid in PROG_SPECS: run_prog_check(pid, tier, rep, deadline)
